@@ -194,7 +194,7 @@ const int G_THOROUGH_SHARDS = 16;
 }  // namespace
 
 // every string over {0,1,9,-,+,.,e,E,blank} up to length 6 (quick) / 8 (thorough)
-LAW(G1_grammar_enum, ENUM, 8, G_THOROUGH_SHARDS, 0, "a string of the grammar with a decimal separator or an exponent") {
+LAW(G1_grammar_enum, ENUM, 12, G_THOROUGH_SHARDS, 0, "a string of the grammar with a decimal separator or an exponent") {
   const int maxLen = c.s.enumerating() ? (c.shardN >= G_THOROUGH_SHARDS ? 8 : 6) : 8;
   int n = c.irange(0, maxLen); string s;
   c.desc << "len " << n << " ";
@@ -365,13 +365,20 @@ LAW(T2_tokens, RC, 40000, 2000000, 40, "string with >= 1 delimiter and >= 1 brac
 // ====================================================================== nested tokeniser
 namespace {
 
-// balanced bracket strings over the same alphabet
-void genBalanced(vf::Ctx& c, string& s, int depth, size_t maxLen) {
-  int n = c.irange(0, depth == 0 ? 10 : 4);
+// balanced bracket strings over the same alphabet, biased towards the delimiters in use
+void genBalanced(vf::Ctx& c, string& s, int depth, size_t maxLen, const string& delims, bool solid) {
+  int n = c.irange(0, depth == 0 ? 10 : 5);
   for (int i = 0; i < n && s.size() < maxLen; ++i) {
-    size_t k = c.below(depth < 3 ? 7 : 6);
-    if (k == 6) { s += '('; genBalanced(c, s, depth + 1, maxLen); s += ')'; }
-    else { static const char NB[] = {'a', ',', 'b', ';', ' ', '='}; s += NB[k]; }
+    size_t k = c.below(depth < 3 ? 8 : 6);
+    switch (k) {
+      case 0: s += 'a'; break;
+      case 1: if (solid) s += delims; else s += delims[0]; break;
+      case 2: s += 'b'; break;
+      case 3: s += delims.back(); break;
+      case 4: s += DA[c.below(4)]; break;
+      case 5: s += '='; break;
+      default: s += '('; genBalanced(c, s, depth + 1, maxLen, delims, solid); s += ')';
+    }
   }
 }
 vector<string> refNested(const string& s, const string& delims, bool solid) {
@@ -391,7 +398,7 @@ vector<string> refNested(const string& s, const string& delims, bool solid) {
 LAW(T3_nested, RC, 40000, 2000000, 80, "a delimiter at bracket depth > 0 and a delimiter at depth 0") {
   bool solid = c.flag();
   string delims = genDelims(c, solid);
-  string s; genBalanced(c, s, 0, 24);
+  string s; genBalanced(c, s, 0, 24, delims, solid);
   int damage = static_cast<int>(c.weighted({5, 1, 1}));  // 0 balanced, 1 remove one bracket, 2 insert one bracket
   if (damage == 1) { vector<size_t> br; for (size_t i = 0; i < s.size(); ++i) if (s[i] == '(' || s[i] == ')') br.push_back(i); if (br.empty()) damage = 0; else s.erase(br[c.below(br.size())], 1); }
   else if (damage == 2) { size_t p = c.below(s.size() + 1); s.insert(s.begin() + static_cast<long>(p), c.flag() ? ')' : '('); }
@@ -683,9 +690,11 @@ LAW(D1_table, RC, 20000, 1000000, 120, "table with row names") {
 namespace {
 
 typedef unique_ptr<DiscreteDistributionInterface> DD;
-struct DFlags { int libInvariant = -1; bool truncExp = false, betaSmall = false, simple = false, invariant = false, uniform = false, gammaOffset = false, simpleRanges = false, unsortedRanges = false; int compounds = 0; };
+struct DFlags { bool fullPrec = false; int libInvariant = -1; bool truncExp = false, betaSmall = false, simple = false, invariant = false, uniform = false, gammaOffset = false, simpleRanges = false, unsortedRanges = false; int compounds = 0; };
 double dec3(vf::Ctx& c, int loMilli, int hiMilli) { return c.irange(loMilli, hiMilli) / 1000.0; }  // 3-digit decimal
 
+// a distribution parameter: 3-digit decimal, or (fullPrec) any double of the range: the writer prints parameters with 12 decimals
+double par(vf::Ctx& c, const DFlags& f, int loMilli, int hiMilli) { return f.fullPrec ? c.real(loMilli / 1000.0, hiMilli / 1000.0) : dec3(c, loMilli, hiMilli); }
 // m probabilities, multiples of 1/1000, each >= 0.001, summing to 1
 vector<double> genProbas(vf::Ctx& c, size_t m) {
   vector<double> p; int left = 1000;
@@ -697,16 +706,16 @@ DD genLeaf(vf::Ctx& c, int maxN, ostringstream& ds, DFlags& f) {
   size_t n = static_cast<size_t>(c.irange(1, maxN));
   switch (c.below(8)) {
     case 0: {
-      double a = dec3(c, 200, 20000), b = dec3(c, 200, 20000);
-      if (c.oneIn(6)) { double off = dec3(c, 0, 3000); f.gammaOffset = f.gammaOffset || off != 0; ds << "Gamma(n=" << n << ",alpha=" << a << ",beta=" << b << ",offset parameter=" << off << ")"; return DD(new GammaDiscreteDistribution(n, a, b, 0.05, 0.05, true, off)); }
+      double a = par(c, f, 200, 20000), b = par(c, f, 200, 20000);
+      if (c.oneIn(6)) { double off = par(c, f, 0, 3000); f.gammaOffset = f.gammaOffset || off != 0; ds << "Gamma(n=" << n << ",alpha=" << a << ",beta=" << b << ",offset parameter=" << off << ")"; return DD(new GammaDiscreteDistribution(n, a, b, 0.05, 0.05, true, off)); }
       ds << "Gamma(n=" << n << ",alpha=" << a << ",beta=" << b << ")"; return DD(new GammaDiscreteDistribution(n, a, b));
     }
-    case 1: { double mu = dec3(c, -10000, 10000), sg = dec3(c, 100, 10000); ds << "Gaussian(n=" << n << ",mu=" << mu << ",sigma=" << sg << ")"; return DD(new GaussianDiscreteDistribution(n, mu, sg)); }
-    case 2: { double a = dec3(c, 200, 20000), b = dec3(c, 200, 20000); if (a <= 1 || b <= 1) f.betaSmall = true; ds << "Beta(n=" << n << ",alpha=" << a << ",beta=" << b << ")"; return DD(new BetaDiscreteDistribution(n, a, b)); }
-    case 3: { double l = dec3(c, 100, 10000); ds << "Exponential(n=" << n << ",lambda=" << l << ")"; return DD(new ExponentialDiscreteDistribution(n, l)); }
-    case 4: { double l = dec3(c, 100, 10000), tp = dec3(c, 500, 20000); f.truncExp = true; ds << "TruncExponential(n=" << n << ",lambda=" << l << ",tp=" << tp << ")"; return DD(new TruncatedExponentialDiscreteDistribution(n, l, tp)); }
+    case 1: { double mu = par(c, f, -10000, 10000), sg = par(c, f, 100, 10000); ds << "Gaussian(n=" << n << ",mu=" << mu << ",sigma=" << sg << ")"; return DD(new GaussianDiscreteDistribution(n, mu, sg)); }
+    case 2: { double a = par(c, f, 200, 20000), b = par(c, f, 200, 20000); if (a <= 1 || b <= 1) f.betaSmall = true; ds << "Beta(n=" << n << ",alpha=" << a << ",beta=" << b << ")"; return DD(new BetaDiscreteDistribution(n, a, b)); }
+    case 3: { double l = par(c, f, 100, 10000); ds << "Exponential(n=" << n << ",lambda=" << l << ")"; return DD(new ExponentialDiscreteDistribution(n, l)); }
+    case 4: { double l = par(c, f, 100, 10000), tp = par(c, f, 500, 20000); f.truncExp = true; ds << "TruncExponential(n=" << n << ",lambda=" << l << ",tp=" << tp << ")"; return DD(new TruncatedExponentialDiscreteDistribution(n, l, tp)); }
     case 5: { double a = dec3(c, -5000, 5000), w = dec3(c, 100, 10000); f.uniform = true; ds << "Uniform(n=" << n << ",begin=" << a << ",end=" << a + w << ")"; return DD(new UniformDiscreteDistribution(static_cast<unsigned int>(n), a, a + w)); }
-    case 6: { double v = dec3(c, -5000, 5000); ds << "Constant(" << v << ")"; return DD(new ConstantDistribution(v)); }
+    case 6: { double v = par(c, f, -5000, 5000); ds << "Constant(" << v << ")"; return DD(new ConstantDistribution(v)); }
     default: {
       f.simple = true;
       vector<double> values; int cur = c.irange(-5000, 5000);
@@ -735,7 +744,7 @@ DD genDist(vf::Ctx& c, int depth, int maxN, ostringstream& ds, DFlags& f) {
   if (k == 1) {
     ++f.compounds; f.invariant = true; ds << "Invariant(dist=";
     DD in = genDist(c, depth + 1, max(1, maxN - 1), ds, f);
-    double p = dec3(c, 1, 999);
+    double p = par(c, f, 1, 999);
     if (f.libInvariant < 0) f.libInvariant = c.flag() ? 1 : 0;   // one invariant value per case: 1e-6 (what the reader uses) or 0 (the class default)
     bool libInv = f.libInvariant == 1; ds << ",p=" << p << (libInv ? ",invariant=1e-6)" : ",invariant=0)");
     return DD(new InvariantMixedDiscreteDistribution(std::move(in), p, libInv ? 0.000001 : 0.0));
@@ -754,6 +763,7 @@ DD genDist(vf::Ctx& c, int depth, int maxN, ostringstream& ds, DFlags& f) {
 
 LAW(P1_distribution, RC, 6000, 200000, 150, "compound distribution (Invariant / Mixture)") {
   ostringstream ds; DFlags f;
+  f.fullPrec = c.oneIn(4); ds.precision(17);
   DD d = genDist(c, 0, 8, ds, f);
   c.desc << ds.str();
   c.nt(f.compounds > 0);
@@ -770,19 +780,21 @@ LAW(P1_distribution, RC, 6000, 200000, 150, "compound distribution (Invariant / 
   if (f.gammaOffset) c.excludeIfKnown("C17-gamma-offset");
   if (f.betaSmall) c.excludeIfKnown("C17-beta-ctor-bounds");
   if (f.unsortedRanges) c.excludeIfKnown("C17-simple-ranges-index");
+  if (f.invariant && f.libInvariant == 0) c.excludeIfKnown("C17-invariant-value-not-written");
   DD r;
   try { BppODiscreteDistributionFormat rd(false); r = rd.readDiscreteDistribution(text, true); }
   catch (bpp::Exception& e) { CHECK(false, "readDiscreteDistribution raised on the written description " << q(text) << ": " << what1(e)); }
   CHECK(r->getName() == d->getName(), "read back a " << r->getName() << " from " << q(text));
   CHECK(r->getNumberOfCategories() == ncat, "read back " << r->getNumberOfCategories() << " classes instead of " << ncat << " from " << q(text));
   vector<double> cats2 = r->getCategories(), probs2 = r->getProbabilities();
-  // the writer prints 6 decimals (values, probabilities of Simple) / 12 decimals (parameters); the Simple reader re-reads
-  // its parameters with 6 significant digits, and the reader's invariant class sits at 1e-6
-  const double tol = (f.simple || f.invariant) ? 1e-5 : 1e-9;
+  // parameters are written with 12 decimals: 3-digit parameters come back exactly, any other parameter within 5e-13.
+  // Simple: values / probabilities are written with 6 decimals and the reader re-reads its parameters with 6 significant digits.
+  const double tol = f.simple ? 1e-5 : 1e-9;
+  const char* tn = f.simple ? "1e-5 (Simple)" : f.fullPrec ? "1e-9 (full-precision parameters)" : "1e-9 (3-digit parameters)";
   for (size_t i = 0; i < ncat; ++i) {
     double ev = std::abs(cats[i] - cats2[i]) / max(1.0, std::abs(cats[i])), ep = std::abs(probs[i] - probs2[i]);
-    c.observe(tol > 1e-6 ? "class value error / 1e-5 (Simple, Invariant)" : "class value error / 1e-9", ev / tol);
-    c.observe(tol > 1e-6 ? "probability error / 1e-5 (Simple, Invariant)" : "probability error / 1e-9", ep / tol);
+    c.observe(string("class value error / ") + tn, ev / tol);
+    c.observe(string("probability error / ") + tn, ep / tol);
     CHECK(ev <= tol, "class " << i << " has value " << vf::dec(cats2[i]) << " after reading, " << vf::dec(cats[i]) << " before; text " << q(text));
     CHECK(ep <= tol, "class " << i << " has probability " << vf::dec(probs2[i]) << " after reading, " << vf::dec(probs[i]) << " before; text " << q(text));
   }
